@@ -128,7 +128,7 @@ PROPS = {
              "Trusted: Lean kernel, harness.",
         assumptions=["chunk >= 1"]),
     "C13": dict(
-        module="Flussab.Props.C13", engines=[("scan", 30000, 1500000, ""), ("scan", 565, 1430, "scale")], release=True,
+        module="Flussab.Props.C13", engines=[("scan", 30000, 1500000, ""), ("scan", 565, 1430, "scale"), ("scan", 8000, 200000, "pad")], release=True,
         bv_decide_theorems=["fast_path_exact", "multi_eq_simple", "signed_multi_eq_simple"],
         claim="Theorems generic in the integer type (signedness x width, so all 12 Rust types): ascii_digits and "
               "signed_ascii_digits return the offset past the longest digit run and the exact value iff "
@@ -145,7 +145,7 @@ PROPS = {
         trusted=["tools/gen_swar.py (Rust -> BitVec translator)", "bv_decide: cadical + verified LRAT checker run natively"],
         assumptions=["usize/isize are 64 bit"]),
     "C16": dict(
-        module="Flussab.Props.C16", engines=[("scan", 0, 0, "exhaustive"), ("scan", 20000, 400000, ""), ("scan", 565, 1430, "scale")], release=True,
+        module="Flussab.Props.C16", engines=[("scan", 0, 0, "exhaustive"), ("scan", 20000, 400000, ""), ("scan", 565, 1430, "scale"), ("scan", 8000, 200000, "follow")], release=True,
         exhaustive=False,
         claim="Closed-form theorems for all inputs, offsets and patterns (no length bound): tabs_or_spaces, newline "
               "(LF, CRLF, lone CR, CR at end), next_newline, fixed (empty / cut / longer-than-input pattern) return "
